@@ -13,6 +13,6 @@ COMMON = dict(harness='C18/h_ninja.cpp', entry='harness_ninja', cxxflags=['-I/re
               noinline=['buildCommandIsResultValid', 'buildInputIsResultValid'], expect_functions=['IsResultValid'],
               stub_virtual=['.'], allow_external=['^_ZTV'], assert_external=['.'], unwind=8, copy_unwind=130, timeout=600, cbmc_flags=['--object-bits', '10'])
 OBLIGATIONS = [
-    dict(COMMON, name='U1.commandValid', params_quick=[{'VF_CASE': 0, 'VF_K': 1}, {'VF_CASE': 0, 'VF_K': 2}]),
-    dict(COMMON, name='U2.inputValid', params_quick=[{'VF_CASE': 1, 'VF_K': 1}]),
+    dict(COMMON, name='U1.commandValid', params_quick=[{'VF_CASE': 0, 'VF_K': k, 'VF_KIND': kd} for k in (1, 2) for kd in (0, 1, 2)]),
+    dict(COMMON, name='U2.inputValid', params_quick=[{'VF_CASE': 1, 'VF_K': 1, 'VF_KIND': kd} for kd in (0, 1)], unwindset='memcmp.0:60'),
 ]
